@@ -16,7 +16,8 @@ def out_kind(line):
 def gen(rng, tier, n):
     cases = []
     for _ in range(n):
-        lines = ["kind %s" % rng.choice(["mem", "mem", "sqlite"])]
+        kind = rng.choice(["mem", "mem", "sqlite", "paged"])     # paged: no ReadStream, pages of at most 2 events
+        lines = ["kind %s" % kind]
         nops_guess = rng.randint(5, 40)
         x = rng.random()
         fail = crash = "-"
@@ -39,7 +40,7 @@ def gen(rng, tier, n):
                 if cand:
                     i = rng.choice(cand)
                     pd = "-"
-                    if rng.random() < 0.12:
+                    if rng.random() < 0.12 and kind != "paged":   # (a paged replay sees what is appended meanwhile: another model)
                         pd = "%d:%d" % (rng.randint(1, 3), 900 + rec); rec += 1
                     lines.append("sub %d %d %s" % (i, ids[i], pd))
                     live.add(i)       # (if it fails the generator may try again only after a restart; fine)
